@@ -11,6 +11,9 @@ META = {
     "level": "Decides: (R1) the collapse optimiser treats the wildcard negations the consumer gives a non-local meaning ('*' clears everything earlier, 'X_*' clears a prefix) specially instead of as ordinary flags; (R2) package_use_splitter emits only the tokens after the last bare '-*' (slices start at the reset index), turns '-*' inside a USE_EXPAND group into '-<group>_*' and validates every flag; (R3) the list of global chunks that the per-package default factory captured is only ever mutated in place - rebinding it is allowed only together with rebinding the dict; clone/freeze copy both; (R4) in the collapse's second pass a specific negation is dropped only when the collapsed global chunk already disables that flag and a specific enable only when it already enables it (unknown flags keep both); (R5) a package-specific entry is appended only after the key's list was brought up to date with the globals. Does NOT decide rendered flag sets for concrete histories.",
     "note": "chunks are (key, neg, pos) triples; incremental_chunked is the single consumer of rendered chunk streams",
 }
+META["technique"] += "; " + 'effect analysis on the render/lookup functions; positive-identification rule for the global fold'
+META["level"] += " Added after the second round of independent changes: " + '(R6) render_pkg / render_to_dict / pull_data and the collapse builder write only to objects they created (incremental_* only to their accumulator); (R7) a chunk is folded into the collapsed global chunk only under a positive test (AlwaysTrue / is_simple), never by exclusion.'
+META["technique"] += "; " + 'generic pack G on the anchored files (optional-flag shift, closures outliving a loop iteration, single-pass iterables consumed twice, %-templates built from data, in-place writes to class-level / memoised objects, generators mutating what they yielded, memo keys that are projections)'
 MISC = "pkgcore.ebuild.misc"
 
 
